@@ -95,6 +95,7 @@ class Sandbox:
 
 
 _SANDBOX = None
+KEEP = object()
 
 
 def sandbox():
@@ -110,7 +111,8 @@ def run(fn, stdin: str = '', fs=None, timeout: float = 5.0, reset_registry: bool
     """Runs `fn()` (which calls into the implementation) under captured stdio, in the sandbox
     directory, with a wall-clock alarm."""
     sb = sandbox()
-    sb.populate(fs)
+    if fs is not KEEP:          # KEEP: leave the scratch directory as the previous evaluation left it
+        sb.populate(fs)
     if reset_registry:
         module_mod._MODULE_REGISTRY.clear()
     reader = _KeepOpen(stdin.encode('utf-8'))
